@@ -182,3 +182,26 @@ def describe(c):
             "env": env, "file": file,
             "initial_files": [p if isinstance(p, str) else p.decode() for p, _ in init],
             "ops": ["roll" if o[0] == 0 else "write %r + roll" % bytes(o[1]) for o in ops]}
+
+
+def extra_checks(ctx, cases, impl_lines, model_lines):
+    """several rollers with pairwise disjoint archive names sharing ONE not-yet-existing archive directory
+    tree roll for the first time at the same moment (4 threads behind a barrier, 60 rounds plain + 20 gzip):
+    every roll must succeed and put its file at its own base name (direct oracle; the window theorems are
+    per roller and the rollers share no name)"""
+    vc = ctx["vc"]
+    res = []
+    lines = [vc.show([9, 60, 4, 0]), vc.show([9, 20, 4, 1])]
+    got = vc.run_lines([ctx["vh"]], lines, timeout_per_batch=300)
+    for ln, g in zip(lines, got):
+        try:
+            v = vc.parse(g)
+        except Exception:
+            v = None
+        if v != [0, 0]:
+            res.append(("rollers with disjoint archive names sharing a fresh archive directory, first rolls at the same "
+                        "moment: (rolls that returned Err, files not at their base archive name) = %r" % (v if v is not None else g,),
+                        {"case_line": ln}))
+            break
+    ctx.setdefault("xcheck", {})["concurrent_first_rolls"] = 80 * 4
+    return res
